@@ -357,6 +357,22 @@ def main_std_types(only=None):
         pp.copy_std_types(n2, net, element=element)
         if pp.load_std_type(n2, "T9", element) != t3:
             fails.append(f"{element}: copy_std_types changed the type data")
+        # re-define a type under its name with fewer parameters (in the net it was copied to): nothing of the old definition survives, and
+        # the net it was copied from keeps its own definition
+        optional = [k for k in t3 if k.startswith(("r0_", "x0_", "c0_", "g_us", "vk0", "vkr0", "mag0", "si0", "vector_group", "tap_", "alpha",
+                                                   "endtemp", "type", "q_mm2"))]
+        t4 = {k: (v * 2. if isinstance(v, float) else v) for k, v in t3.items() if k not in optional[:3]}
+        if len(t4) < len(t3):
+            pp.create_std_type(n2, dict(t4), "T9", element=element, overwrite=True, check_required=False)
+            got = pp.load_std_type(n2, "T9", element)
+            if got != t4:
+                fails.append(f"{element}: load_std_type after re-defining an existing type returns {sorted(set(got) - set(t4))} that the new "
+                             f"definition does not contain" if set(got) - set(t4) else f"{element}: re-defined type differs from its definition")
+            if pp.load_std_type(net, "T9", element) != t3:
+                fails.append(f"{element}: re-defining a type in the net it was copied to changed the type in the net it was copied from")
+            pp.create_std_type(n2, dict(t3), "T9", element=element, overwrite=False, check_required=False)
+            if pp.load_std_type(n2, "T9", element) != t4:
+                fails.append(f"{element}: create_std_type(overwrite=False) changed an existing type")
     return _report(fails, "standard types are applied completely on all replay vectors")
 
 
